@@ -826,7 +826,7 @@ class JinjaTemplater(PythonTemplater):
                     in_str, syntax_tree, undefined_variables
                 ),
             )
-        except (TemplateError, TypeError, ValueError) as err:
+        except (TemplateError, TypeError, ValueError, ArithmeticError) as err:
             # ValueError is caught to handle multi-variable for-loop unpacking
             # failures, e.g. {% for key, val in undefined_var.items() %} raises
             # "not enough values to unpack" because the undefined stub yields
